@@ -133,7 +133,7 @@ def run(out, tier, seed):
     wd = vlib.workdir(out.pid)
     rnd = random.Random(seed)
     hist = os.path.join(wd, "hist.ndjson")
-    keep = 6 if tier == "quick" else 1
+    keep = 6 if tier == "quick" else 12
 
     def sample(p):
         return p if zlib.crc32(json.dumps(p["hist"], sort_keys=True).encode()) % keep == 0 else None
